@@ -395,6 +395,20 @@ func execC01(p *C01Plan, rc *simkit.RunCtx) {
 		s.anyFailure = true
 		if errors.Is(s.startErr, modules.ErrCleanExit) {
 			rc.Probe("clean-exit")
+		} else if p.Mgmt && p.Anomaly == "" && s.earlyDone == nil {
+			// Start failed, the program carries on and lets the management react to flag changes: what a pass can
+			// still achieve is open (modules that were never prepared stay dead), so only the ordering clauses and
+			// the Shutdown clauses are judged from here on
+			for ri, rd := range p.Rounds {
+				for _, t := range rd.Toggle {
+					if t < len(s.mods) {
+						s.mods[t].SetEnabled(!s.mods[t].Enabled())
+					}
+				}
+				err := modules.ManageModules()
+				rc.H("Manage %d (after failed Start) err=%v", ri, err != nil)
+				rc.Probe("manage-after-failed-start")
+			}
 		}
 	}
 	if rc.Failed() {
